@@ -93,6 +93,9 @@ func init() {
 
 type gen struct{ r *hx.Rand }
 
+// well-formed values the implementation's Init refused (see wfGeneric)
+var genInitRefused []string
+
 func (g *gen) intEdge(lo, hi int) int {
 	switch g.r.Intn(8) {
 	case 0:
@@ -421,7 +424,11 @@ func (g *gen) wfGeneric(isApp bool) format.Format {
 				f.FMT[g.fmtpToken(8, true, false)] = g.fmtpToken(12, false, true)
 			}
 		}
-		if f.Init() != nil {
+		// by construction the value is well formed (RFC 4566: <encoding name>[/<clock rate>[/<encoding parameters>]], clock
+		// rate < 2^31): the generator does not ask the implementation whether it is - an Init that refuses it is a failure of
+		// the implementation, reported by main (it must not silently remove the case from the domain)
+		if err := f.Init(); err != nil {
+			genInitRefused = append(genInitRefused, fmt.Sprintf("format.Generic{PayloadTyp: %d, RTPMa: %q}.Init(): %v", f.PayloadTyp, f.RTPMa, err))
 			continue
 		}
 		// unmarshal uses mediaType == "application" where Init assumes it
